@@ -26,6 +26,41 @@ import (
 // S is the active simulation (nil = pass-through).
 var S atomic.Pointer[Sim]
 
+// Goroutines of a finished simulation (its main function has returned) are released into pass-through mode.
+// Some of them are still alive when the next simulation of the same process starts (a crash-recovery run right
+// after the main run): a ticker goroutine that has yet to notice its closing channel, a timer callback.  If such
+// a goroutine called into the NEW simulation it would be adopted at an uncontrolled instant and change the
+// schedule.  Their runtime goroutine ids are therefore remembered; for them every simrt entry point stays
+// pass-through (they only ever touch objects of the finished run).
+var (
+	retired      sync.Map // goid -> struct{}
+	retiredCount atomic.Int64
+)
+
+func retire(id uint64) {
+	if _, loaded := retired.LoadOrStore(id, struct{}{}); !loaded {
+		retiredCount.Add(1)
+	}
+}
+
+func isRetired() bool {
+	if retiredCount.Load() == 0 {
+		return false
+	}
+	_, ok := retired.Load(goid())
+	return ok
+}
+
+// active returns the running simulation, or nil for callers that must pass through (no simulation, or a
+// leftover goroutine of a finished one).
+func active() *Sim {
+	s := S.Load()
+	if s == nil || isRetired() {
+		return nil
+	}
+	return s
+}
+
 type gstate int32
 
 const (
@@ -259,6 +294,9 @@ func (s *Sim) Run(main func()) {
 		s.stopped.Store(true)
 		S.Store(nil)
 		s.mu.Lock()
+		for id := range s.goid {
+			retire(id)
+		}
 		for _, g := range s.gs {
 			if g.state == gParked {
 				g.state = gRunning
@@ -437,7 +475,7 @@ func (s *Sim) enter(site int32) *G {
 
 // Yield is a scheduling point.
 func Yield(site int32) {
-	s := S.Load()
+	s := active()
 	if s == nil {
 		return
 	}
@@ -453,8 +491,12 @@ func YP[T any](site int32, p *T) *T {
 
 // Go starts f as a managed goroutine.
 func Go(site int32, f func()) {
-	s := S.Load()
+	s := active()
 	if s == nil {
+		if isRetired() {
+			go func() { retire(goid()); f() }()
+			return
+		}
 		go f()
 		return
 	}
@@ -496,7 +538,7 @@ func (s *Sim) exit(g *G, id uint64) {
 
 // Spawn is for harness code: start a named client goroutine from inside the simulation.
 func Spawn(name string, f func()) {
-	s := S.Load()
+	s := active()
 	if s == nil {
 		go f()
 		return
@@ -508,7 +550,7 @@ func Spawn(name string, f func()) {
 // Adopted wraps f so that, when some uninstrumented code runs it on a new goroutine, that
 // goroutine carries an identity allocated now (deterministically) instead of at first contact.
 func Adopted(site int32, f func()) func() {
-	s := S.Load()
+	s := active()
 	if s == nil {
 		return f
 	}
@@ -522,6 +564,7 @@ func Adopted(site int32, f func()) func() {
 	s.mu.Unlock()
 	return func() {
 		if s.stopped.Load() {
+			retire(goid()) // a callback of a finished simulation firing later
 			f()
 			return
 		}
@@ -604,7 +647,7 @@ func (s *Sim) release(p unsafe.Pointer, write bool) {
 }
 
 func MuLock(m *sync.Mutex, site int32) {
-	s := S.Load()
+	s := active()
 	if s == nil {
 		m.Lock()
 		return
@@ -626,7 +669,7 @@ func (s *Sim) noteForeign(site int32) {
 }
 
 func MuTryLock(m *sync.Mutex, site int32) bool {
-	s := S.Load()
+	s := active()
 	if s == nil {
 		return m.TryLock()
 	}
@@ -640,14 +683,14 @@ func MuTryLock(m *sync.Mutex, site int32) bool {
 }
 
 func MuUnlock(m *sync.Mutex) {
-	if s := S.Load(); s != nil {
+	if s := active(); s != nil {
 		s.release(unsafe.Pointer(m), true)
 	}
 	m.Unlock()
 }
 
 func RWLock(m *sync.RWMutex, site int32) {
-	s := S.Load()
+	s := active()
 	if s == nil {
 		m.Lock()
 		return
@@ -664,14 +707,14 @@ func RWLock(m *sync.RWMutex, site int32) {
 }
 
 func RWUnlock(m *sync.RWMutex) {
-	if s := S.Load(); s != nil {
+	if s := active(); s != nil {
 		s.release(unsafe.Pointer(m), true)
 	}
 	m.Unlock()
 }
 
 func RWRLock(m *sync.RWMutex, site int32) {
-	s := S.Load()
+	s := active()
 	if s == nil {
 		m.RLock()
 		return
@@ -688,14 +731,14 @@ func RWRLock(m *sync.RWMutex, site int32) {
 }
 
 func RWRUnlock(m *sync.RWMutex) {
-	if s := S.Load(); s != nil {
+	if s := active(); s != nil {
 		s.release(unsafe.Pointer(m), false)
 	}
 	m.RUnlock()
 }
 
 func RWTryLock(m *sync.RWMutex, site int32) bool {
-	s := S.Load()
+	s := active()
 	if s == nil {
 		return m.TryLock()
 	}
@@ -709,7 +752,7 @@ func RWTryLock(m *sync.RWMutex, site int32) bool {
 }
 
 func RWTryRLock(m *sync.RWMutex, site int32) bool {
-	s := S.Load()
+	s := active()
 	if s == nil {
 		return m.TryRLock()
 	}
@@ -760,7 +803,7 @@ func LockerUnlock(l sync.Locker) {
 // ---- cond
 
 func CondWait(c *sync.Cond, site int32) {
-	s := S.Load()
+	s := active()
 	if s == nil {
 		c.Wait()
 		return
@@ -827,7 +870,7 @@ func (s *Sim) condWake(c *sync.Cond, all bool) {
 }
 
 func CondSignal(c *sync.Cond) {
-	s := S.Load()
+	s := active()
 	if s == nil {
 		c.Signal()
 		return
@@ -836,7 +879,7 @@ func CondSignal(c *sync.Cond) {
 }
 
 func CondBroadcast(c *sync.Cond) {
-	s := S.Load()
+	s := active()
 	if s == nil {
 		c.Broadcast()
 		return
@@ -847,7 +890,7 @@ func CondBroadcast(c *sync.Cond) {
 // ---- once
 
 func OnceDo(o *sync.Once, f func(), site int32) {
-	s := S.Load()
+	s := active()
 	if s == nil {
 		o.Do(f)
 		return
@@ -894,7 +937,7 @@ func Zero[T any](ch <-chan T) (z T) { return }
 
 // SelectStart is the pre-yield of a multi-way select and returns the rotation of its probes.
 func SelectStart(n int, site int32) int {
-	s := S.Load()
+	s := active()
 	if s == nil {
 		return 0
 	}
@@ -908,7 +951,7 @@ func SelectStart(n int, site int32) int {
 
 // Seq returns the next global event sequence number (for history stamps).
 func Seq() uint64 {
-	if s := S.Load(); s != nil {
+	if s := active(); s != nil {
 		return s.Seq.Add(1)
 	}
 	return 0
